@@ -99,6 +99,16 @@ let perform_checked op a b =
          then RPanic
          else RVal ((Z.rem a b), false)
 
+(** val exact_op : arith_op -> coq_Z -> coq_Z -> coq_Z option **)
+
+let exact_op op a b =
+  match op with
+  | OpAdd -> Some (Z.add a b)
+  | OpSub -> Some (Z.sub a b)
+  | OpMul -> Some (Z.mul a b)
+  | OpDiv -> if Z.eqb b Z0 then None else Some (Z.quot a b)
+  | OpMod -> if Z.eqb b Z0 then None else Some (Z.rem a b)
+
 type vec_res =
 | VOk of coq_Z list
 | VOverflow
